@@ -1,8 +1,9 @@
 ---------------------------------- MODULE RoutingRef ----------------------------------
 (* Property-level specification of C09 (application routing).  A route table is a tree     *)
-(*   Scope    [t |-> "scope", prefix, guard, data, dflt, children]                         *)
-(*   Resource [t |-> "res", pat, guard, data, dflt, routes |-> <<[m, id]>>]                 *)
-(* (patterns in the element form of PatRef; guard in {"any","GET","POST"}; data = 0 or a   *)
+(*   Scope    [t |-> "scope", prefix, guard, hg, data, dflt, children]                     *)
+(*   Resource [t |-> "res", pats, guard, hg, data, dflt, routes |-> <<[m, id]>>]            *)
+(* (patterns in the element form of PatRef; pats: one or more patterns of one resource;    *)
+(* guard in {"any","GET","POST"}; hg: also guarded by a header guard; data = 0 or a        *)
 (* tag; dflt = 0 or the id of a default service).  Walk is the reference: depth-first in   *)
 (* registration order, first service whose pattern matches the not-yet-matched part of the *)
 (* path at a segment boundary and whose guards accept; a matched scope is committed (its   *)
@@ -11,6 +12,11 @@
 EXTENDS PatRef
 
 GuardOk(g, m) == g = "any" \/ g = m
+\* a service may carry several guards (here: a method guard and a header guard); all of them must accept
+NodeGuardsOk(n, m, hx) == GuardOk(n.guard, m) /\ (n.hg => hx)
+\* a resource may be registered with several patterns: it matches when one of them does, the first such pattern captures
+ResHits(n, path) == {j \in 1..Len(n.pats) : Matches(n.pats[j], path, FALSE) # {}}
+ResPat(n, path) == n.pats[CHOOSE j \in ResHits(n, path) : \A k \in ResHits(n, path) : j <= k]
 Rest(path, nxt) == SubSeq(path, nxt, Len(path))
 (* the unique decomposition chosen: captures of a pattern on a path (patterns of the grammar are unambiguous) *)
 OneMatch(pat, path, prefix) == CHOOSE m \in Matches(pat, path, prefix) : TRUE
@@ -25,26 +31,26 @@ RouteRes(r, m, caps, data, dflt) ==
   ELSE IF r.dflt # 0 THEN Result("default", r.dflt, caps, data, 200)
   ELSE Result("405", 0, caps, data, 405)
 
-RECURSIVE Walk(_, _, _, _, _, _, _, _)
+RECURSIVE Walk(_, _, _, _, _, _, _, _, _)
 \* alt = TRUE describes the documented actix behaviour: a nested scope without its own default falls back to the App default
-Walk(children, path, m, caps, data, dflt, app, alt) ==
+Walk(children, path, m, hx, caps, data, dflt, app, alt) ==
   \* first child (registration order) that matches and whose guard accepts
   LET hits == {i \in 1..Len(children) :
                  LET n == children[i] IN
-                 GuardOk(n.guard, m) /\ Matches(IF n.t = "scope" THEN n.prefix ELSE n.pat, path, n.t = "scope") # {}}
+                 NodeGuardsOk(n, m, hx) /\ (IF n.t = "scope" THEN Matches(n.prefix, path, TRUE) # {} ELSE ResHits(n, path) # {})}
   IN IF hits = {} THEN (IF dflt # 0 THEN Result("default", dflt, caps, data, 200) ELSE Result("404", 0, caps, data, 404))
      ELSE LET i == CHOOSE i \in hits : \A j \in hits : i <= j
               n == children[i] IN
-          IF n.t = "res" THEN RouteRes(n, m, caps \o Caps(n.pat, path, FALSE), DataOf(n, data), dflt)
+          IF n.t = "res" THEN RouteRes(n, m, caps \o Caps(ResPat(n, path), path, FALSE), DataOf(n, data), dflt)
           ELSE LET mm == OneMatch(n.prefix, path, TRUE) IN
-               Walk(n.children, Rest(path, mm[1]), m, caps \o CapValues(path, mm), DataOf(n, data),
+               Walk(n.children, Rest(path, mm[1]), m, hx, caps \o CapValues(path, mm), DataOf(n, data),
                     IF n.dflt # 0 THEN n.dflt ELSE IF alt THEN app ELSE dflt, app, alt)
 
 RouteInit(e) == [tag |-> "ok", table |-> e.table]
 RouteStep(rs, e) ==
   CASE e.ev = "route" ->
-         LET w == Walk(rs.table.children, e.path, e.method, <<>>, rs.table.data, rs.table.dflt, rs.table.dflt, FALSE)
-             v == Walk(rs.table.children, e.path, e.method, <<>>, rs.table.data, rs.table.dflt, rs.table.dflt, TRUE)
+         LET w == Walk(rs.table.children, e.path, e.method, e.hx, <<>>, rs.table.data, rs.table.dflt, rs.table.dflt, FALSE)
+             v == Walk(rs.table.children, e.path, e.method, e.hx, <<>>, rs.table.data, rs.table.dflt, rs.table.dflt, TRUE)
              known == (w.status # v.status \/ w.id # v.id) /\ e.status = v.status /\ (v.kind \in {"404", "405"} \/ e.id = v.id)
          IN
          IF known THEN Rej("C09/Default/nested-scope-falls-back-to-app-default-not-enclosing-scope", "") ELSE
